@@ -2463,8 +2463,18 @@ impl<'a> Model<'a> {
                     worksheet.set_cell_with_number(row, column, v, new_style_index)?;
                     return Ok(());
                 }
-                // We try to parse as boolean
-                if let Ok(v) = value.to_lowercase().parse::<bool>() {
+                // We try to parse as boolean, in English or as the active language shows them
+                let lower = value.to_lowercase();
+                let boolean = if let Ok(v) = lower.parse::<bool>() {
+                    Some(v)
+                } else if lower == self.language.booleans.r#true.to_lowercase() {
+                    Some(true)
+                } else if lower == self.language.booleans.r#false.to_lowercase() {
+                    Some(false)
+                } else {
+                    None
+                };
+                if let Some(v) = boolean {
                     let worksheet = self.workbook.worksheet_mut(sheet)?;
                     worksheet.set_cell_with_boolean(row, column, v, new_style_index)?;
                     return Ok(());
